@@ -109,3 +109,140 @@ def eval_poly(expr: ast.expr, env: Dict[str, object]) -> Poly:
         if isinstance(expr.op, ast.Div) and b.is_const() and b.terms:
             return a * Poly.const(1 / b.terms[()])
     raise AnalysisError(f"polynomial domain: cannot normalise '{ast.unparse(expr)[:80]}'")
+
+
+# ---------------------------------------------------------------------------------------------------------------------
+# rational functions and 3-vectors over them: enough algebra to follow a closed-form geometric construction statement by
+# statement and to check an identity about its result exactly
+class Rat:
+    __slots__ = ("num", "den")
+
+    def __init__(self, num: Poly, den: Optional[Poly] = None):
+        self.num, self.den = num, den if den is not None else Poly.const(1)
+
+    def __add__(self, o: "Rat") -> "Rat":
+        if self.den == o.den:
+            return Rat(self.num + o.num, self.den)
+        return Rat(self.num * o.den + o.num * self.den, self.den * o.den)
+
+    def __neg__(self) -> "Rat":
+        return Rat(-self.num, self.den)
+
+    def __sub__(self, o: "Rat") -> "Rat":
+        return self + (-o)
+
+    def __mul__(self, o: "Rat") -> "Rat":
+        return Rat(self.num * o.num, self.den * o.den)
+
+    def __truediv__(self, o: "Rat") -> "Rat":
+        if not o.num.terms:
+            raise AnalysisError("rational domain: division by zero")
+        return Rat(self.num * o.den, self.den * o.num)
+
+    def is_zero(self) -> bool:
+        return not self.num.terms
+
+
+class Vec:
+    __slots__ = ("c",)
+
+    def __init__(self, comps):
+        self.c = tuple(comps)
+
+    def __add__(self, o):
+        return Vec(a + b for a, b in zip(self.c, o.c))
+
+    def __sub__(self, o):
+        return Vec(a - b for a, b in zip(self.c, o.c))
+
+    def __neg__(self):
+        return Vec(-a for a in self.c)
+
+    def scale(self, s: Rat):
+        return Vec(a * s for a in self.c)
+
+    def dot(self, o) -> Rat:
+        out = Rat(Poly.const(0))
+        for a, b in zip(self.c, o.c):
+            out = out + a * b
+        return out
+
+    def cross(self, o):
+        a, b = self.c, o.c
+        return Vec((a[1] * b[2] - a[2] * b[1], a[2] * b[0] - a[0] * b[2], a[0] * b[1] - a[1] * b[0]))
+
+
+def sym_vec(name: str) -> Vec:
+    return Vec(Rat(Poly.var(f"{name}{i}")) for i in range(3))
+
+
+def reduce_unit(p: Poly, name: str) -> Poly:
+    """Normal form of a polynomial modulo |u| = 1 for the vector u = (name0, name1, name2): name2^2 -> 1 - name0^2 - name1^2."""
+    x, y, z = f"{name}0", f"{name}1", f"{name}2"
+    changed = True
+    while changed:
+        changed = False
+        out = Poly()
+        for mono, coef in p.terms.items():
+            d = dict(mono)
+            if d.get(z, 0) >= 2:
+                changed = True
+                d[z] -= 2
+                if d[z] == 0:
+                    del d[z]
+                rest = Poly({tuple(sorted(d.items())): coef})
+                out = out + rest * (Poly.const(1) - Poly.var(x) ** 2 - Poly.var(y) ** 2)
+            else:
+                out = out + Poly({mono: coef})
+        p = out
+    return p
+
+
+def eval_alg(expr: ast.expr, env: Dict[str, object]):
+    """Rat | Vec value of an expression over +, -, *, /, unary minus, x.dot(y), np.dot, np.cross and numeric constants."""
+    hook = env.get("__hook__")
+    if hook is not None:
+        v = hook(expr, env)
+        if v is not None:
+            return v
+    if isinstance(expr, ast.Constant) and isinstance(expr.value, (int, float)) and not isinstance(expr.value, bool):
+        return Rat(Poly.const(Fraction(expr.value).limit_denominator(10**9)))
+    if isinstance(expr, ast.Name):
+        if expr.id in env:
+            return env[expr.id]
+        raise AnalysisError(f"algebra domain: unbound name '{expr.id}'")
+    if isinstance(expr, ast.UnaryOp) and isinstance(expr.op, ast.USub):
+        v = eval_alg(expr.operand, env)
+        return -v
+    if isinstance(expr, ast.BinOp):
+        a, b = eval_alg(expr.left, env), eval_alg(expr.right, env)
+        if isinstance(expr.op, ast.Add) and type(a) is type(b):
+            return a + b
+        if isinstance(expr.op, ast.Sub) and type(a) is type(b):
+            return a - b
+        if isinstance(expr.op, ast.Mult):
+            if isinstance(a, Rat) and isinstance(b, Rat):
+                return a * b
+            if isinstance(a, Rat) and isinstance(b, Vec):
+                return b.scale(a)
+            if isinstance(a, Vec) and isinstance(b, Rat):
+                return a.scale(b)
+        if isinstance(expr.op, ast.Div) and isinstance(b, Rat):
+            return a / b if isinstance(a, Rat) else a.scale(Rat(Poly.const(1)) / b)
+        raise AnalysisError(f"algebra domain: operator in '{ast.unparse(expr)[:60]}'")
+    if isinstance(expr, ast.Call):
+        fn = expr.func
+        nm = fn.attr if isinstance(fn, ast.Attribute) else (fn.id if isinstance(fn, ast.Name) else "")
+        if nm == "dot":
+            ops = [eval_alg(a, env) for a in expr.args]
+            if len(ops) == 1 and isinstance(fn, ast.Attribute):
+                ops = [eval_alg(fn.value, env), ops[0]]
+            if len(ops) == 2 and all(isinstance(o, Vec) for o in ops):
+                return ops[0].dot(ops[1])
+        if nm == "cross" and len(expr.args) == 2:
+            a, b = eval_alg(expr.args[0], env), eval_alg(expr.args[1], env)
+            if isinstance(a, Vec) and isinstance(b, Vec):
+                return a.cross(b)
+        if nm in ("asarray", "array") and expr.args:
+            return eval_alg(expr.args[0], env)
+    raise AnalysisError(f"algebra domain: cannot follow '{ast.unparse(expr)[:80]}'")
